@@ -73,8 +73,8 @@ package section
 //@   ensures p.offset >= old(p.offset)
 //@   ensures errors-array-same-or-fresh: p.errors.arr == old(p.errors.arr) || fresh(p.errors.arr)
 //@   ensures len(p.errors) >= old(len(p.errors))
-//@   at call (*parse/section.programSplitter).errf#1 assert [C19] invalid-name-reported-at-the-offending-character: 0 <= i && i < len(name) && arg1 == p.startOffset + shift + i && arg1 < len(p.content) && p.content[arg1] == name[i]
-//@   at call (*parse/section.programSplitter).errf#0 assert [C19] bad-header-reported-at-line-start: arg1 == p.startOffset
+//@   at call (*parse/section.programSplitter).errf where arg2 is "invalid name: must be a valid Go identifier: unexpected character %q" assert [C19] invalid-name-reported-at-the-offending-character: 0 <= i && i < len(name) && arg1 == p.startOffset + shift + i && arg1 < len(p.content) && p.content[arg1] == name[i]
+//@   at call (*parse/section.programSplitter).errf where arg2 is "unexpected %q, expected \"@@\" or \"@ change_name @\"" assert [C19] bad-header-reported-at-line-start: arg1 == p.startOffset
 
 //@ func (p *programSplitter) readMeta() (s)
 //@   requires lineOK(p)
